@@ -437,4 +437,105 @@ Section Roundtrip.
         change x with (ropen (StackS (ser_header hp ++ wire_of cfg blocks) (wc_encrypt cfg) (wc_compress cfg) k n) s1) end.
       rewrite Hop. reflexivity.
   Qed.
+  (* work package cli17: the same statement with the refinement relation of the opened stack
+     EXPOSED (reads_back hides it behind an invariant): clients that go on using the reader after
+     a file was read to its end (mlar's cat / to-tar / convert loops), or that run linear_extract
+     (C12 is stated for any refining stream), need it.  Also: what read_header returns on the
+     archive (the key policy of mlar's open_mla_file looks at it first).  Proof = that of
+     archive_roundtrip. *)
+  Theorem archive_roundtrip_refines cfg cut_top cut_mid ops sf rs privs s :
+    let blocks := w_out sf in
+    let nb := nblocks BLOCK (len blocks) in
+    (* the calls: all Ok, then finalize Ok *)
+    wrun w_init (ops ++ [OFinalize]) = (sf, rs) ->
+    Forall (fun r => is_ok r = true) rs -> forallb op_utf8 ops = true ->
+    len blocks < 2 ^ 64 -> len (ser_footer_map (order (w_footer sf))) < 2 ^ 32 ->
+    (* compression: a left inverse, u32 compressed block sizes and SizesInfo, i64 seek offsets *)
+    (wc_compress cfg = true ->
+       (forall x, dec (wc_comp cfg x) = x) /\
+       (forall j, j < nb -> len (wc_comp cfg (block_at BLOCK blocks j)) < 2 ^ 32) /\
+       12 + 4 * nb <= LIMIT /\ 12 + 4 * nb < 2 ^ 32 /\ len blocks < 2 ^ 63) ->
+    (* encryption: key, nonce and chunk tag sizes, u32 chunk counter; the reader holds the private
+       key s of one recipient somewhere in its candidate list, and Diffie-Hellman commutes on the
+       key pairs (s, pubk s) and (eph, pubk eph) *)
+    (wc_encrypt cfg = true ->
+       len (wc_key cfg) = 32 /\ len (wc_nonce cfg) = 8 /\
+       (forall i c, len (tagf (wc_key cfg) (wc_nonce cfg) i c) = TAG) /\
+       nfull CHUNK (len (mid_of cfg blocks)) + 2 < 2 ^ 32 /\
+       dh s (pubk (wc_eph cfg)) = dh (wc_eph cfg) (pubk s) /\
+       In (pubk s) (wc_recipients cfg) /\ In s privs) ->
+    (* bincode limit on the header, u64 positions in the file *)
+    config_size (to_persistent cfg) <= LIMIT ->
+    len (ser_header (to_persistent cfg) ++ wire_of cfg blocks) < 2 ^ 64 ->
+    exists a, archive_write cfg cut_top cut_mid ops = Ok a /\
+      read_header LIMIT a = Ok (to_persistent cfg, wire_of cfg (w_out sf)) /\
+      (TagCollision pubk dh kdf wenc wtag (wc_eph cfg) (wc_key cfg) (wc_recipients cfg) privs \/
+       exists p r (R : st (stack_of a p) -> N -> Prop), archive_open a privs = Ok (existT _ p r) /\
+         op_enc p = wc_encrypt cfg /\ op_comp p = wc_compress cfg /\
+         Refines (stack_of a p) (w_out sf) R /\ RS order sf (stack_of a p) R r).
+  Proof.
+    intros blocks nb Hrun Hok Hutf Hlen64 Hfoot32 Hc He Hlim Hlen.
+    set (hp := to_persistent cfg) in *.
+    set (a := ser_header hp ++ wire_of cfg blocks) in *.
+    assert (Hne : wc_encrypt cfg && match wc_recipients cfg with [] => true | _ => false end = false).
+    { destruct (wc_encrypt cfg); [|reflexivity]. destruct (He eq_refl) as (_ & _ & _ & _ & _ & Hin & _).
+      destruct (wc_recipients cfg); [destruct Hin | reflexivity]. }
+    assert (Hwf : wf_enc_opt hp).
+    { apply persistent_wf. intros Ee. destruct (He Ee) as (Hk & Hn & _). split; [exact Hk|]. split; [exact Hn|].
+      pose proof (persistent_wf cfg) as _.
+      (* the wrapped keys are in the file, whose length is below 2^64 *)
+      assert (Hkeys : len (wc_recipients cfg) < 2 ^ 64 \/ 2 ^ 64 <= len (wc_recipients cfg)) by lia.
+      destruct Hkeys as [Hs|Hbig]; [exact Hs|exfalso].
+      assert (Hl : 48 * len (wc_recipients cfg) <= len (ser_header hp)).
+      { unfold hp, Archive.to_persistent, ser_header, ser_enc_header. rewrite Ee. cbn [h_enc h_layers eh_keys eh_public eh_nonce].
+        unfold store_key. cbn [m_keys m_public]. rewrite !len_app, (len_cons 1), !len_app.
+        match goal with |- context [len (concat (map ?f ?l))] =>
+          assert (Hcc : len (concat (map f l)) = 48 * len l) end.
+        { apply len_concat_const. intros kt Hin. apply in_map_iff in Hin. destruct Hin as (r & <- & _).
+          unfold wrap_for. cbn [fst snd]. rewrite len_app, Hwenc, Hwtag by exact Hk. reflexivity. }
+        rewrite Hcc, len_map. lia. }
+      unfold a in Hlen. rewrite len_app in Hlen. lia. }
+    exists a. split; [|split].
+    - unfold Archive.archive_write. rewrite Hne. unfold dump_header. fold hp.
+      destruct (N.ltb_spec LIMIT (config_size hp)) as [?|_]; [lia|]. cbn [bind].
+      rewrite Hrun. rewrite (first_bad_ok rs Hok). cbn [bind].
+      rewrite lower_write_ok.
+      + reflexivity.
+      + intros Ec. destruct (Hc Ec) as (_ & _ & _ & H32 & _). exact H32.
+      + intros Ee. destruct (He Ee) as (_ & _ & _ & Hch & _). exact Hch.
+    - subst a. exact (read_header_ser LIMIT hp _ Hwf Hlim).
+    - (* the configuration the reader loads *)
+      assert (Hcfg : (TagCollision pubk dh kdf wenc wtag (wc_eph cfg) (wc_key cfg) (wc_recipients cfg) privs) \/
+                     exists k n, load_config hp privs = Ok (wc_encrypt cfg, wc_compress cfg, k, n) /\
+                                 (wc_encrypt cfg = true -> k = wc_key cfg /\ n = wc_nonce cfg)).
+      { destruct (wc_encrypt cfg) eqn:Ee.
+        - destruct (He eq_refl) as (Hk & _ & _ & _ & Hdh & Hrec & Hin).
+          destruct (load_config_enc cfg privs s Ee Hk Hdh Hrec Hin) as [Hl|Ht]; [right | left; exact Ht].
+          exists (wc_key cfg), (wc_nonce cfg). split; [exact Hl | auto].
+        - right. exists [], []. split; [exact (load_config_plain cfg privs Ee) | discriminate]. }
+      destruct Hcfg as [Ht|(k & n & Hl & Hkn)]; [left; exact Ht | right].
+      destruct (stack_opens cfg (ser_header hp) blocks Hlen Hc) as (R & HR & s0 & Hos & HR0).
+      { intros Ee. destruct (He Ee) as (_ & _ & Htg & Hch & _). split; [exact Htg | exact Hch]. }
+      fold a in HR, Hos.
+      (* the stack for the loaded parameters is the stack for the writer's *)
+      assert (Hst : exists (R' : st (StackS a (wc_encrypt cfg) (wc_compress cfg) k n) -> N -> Prop) s1,
+                Refines (StackS a (wc_encrypt cfg) (wc_compress cfg) k n) blocks R' /\
+                open_stack a (wc_encrypt cfg) (wc_compress cfg) k n (len (ser_header hp)) = Ok s1 /\ R' s1 0).
+      { destruct (wc_encrypt cfg) eqn:Ee.
+        - destruct (Hkn eq_refl) as [-> ->]. exists R, s0. auto.
+        - exists R, s0. auto. }
+      destruct Hst as (R' & s1 & HR' & Hos' & HR0').
+      destruct (rt_open FNMAX TS TC TA TE H order HHlen Horder ops sf rs Hrun Hok Hutf Hlen64 Hfoot32 _ R' HR' s1 0 HR0')
+        as (r & Hop & Hrb).
+      exists (mkOP (wc_encrypt cfg) (wc_compress cfg) k n (len (ser_header hp))), r, R'.
+      split; [|split; [reflexivity|split; [reflexivity|split; [exact HR'|exact Hrb]]]].
+      unfold Archive.archive_open. subst a.
+      rewrite (read_header_ser LIMIT hp _ Hwf Hlim). cbn [bind]. cbv iota beta.
+      rewrite Hl. cbn [bind]. cbv iota beta.
+      rewrite off_after.
+      rewrite Hos'. cbn [bind].
+      match goal with |- bind ?x _ = _ =>
+        change x with (ropen (StackS (ser_header hp ++ wire_of cfg blocks) (wc_encrypt cfg) (wc_compress cfg) k n) s1) end.
+      rewrite Hop. reflexivity.
+  Qed.
 End Roundtrip.
